@@ -535,10 +535,10 @@ func (h *c17ConsHooks) build(env *c17Env, cs c17Case) (byte, []byte, bool) {
 func (h *c17ConsHooks) probe(env *c17Env) string {
 	cs := h.css[env.name][0]
 	what := "ok"
-	if !c17WithTimeout(3*time.Second, func() { _ = cs.GetRoundState() }) {
+	if !c17WithTimeout(10*time.Second, func() { _ = cs.GetRoundState() }) {
 		return "consensus state mutex held"
 	}
-	if !c17WithTimeout(3*time.Second, func() { _ = cs.GetState() }) {
+	if !c17WithTimeout(10*time.Second, func() { _ = cs.GetState() }) {
 		return "consensus state mutex held"
 	}
 	if env.name != "sync" {
